@@ -11,7 +11,7 @@ EXTENDS Integers, Sequences, FiniteSets, TLC
 
 CTypes == {"EVENT", "REQ", "CLOSE", "AUTH", "COUNT"}
 STypes == {"EOSE", "EVENT", "NOTICE", "OK", "AUTH", "COUNT", "CLOSED"}
-Kinds  == {"k0", "k1", "k5", "k30000"}
+Kinds  == {"k0", "k1", "k5", "k30000", "k1024", "k1025", "k31024"}
 
 MInit == [live |-> {}, subs |-> <<>>,
           recv |-> [t \in CTypes |-> 0], send |-> [t \in STypes |-> 0], ev |-> [k \in Kinds |-> 0]]
